@@ -318,3 +318,53 @@ def write_ndjson(path, rows):
     with open(path, "w") as f:
         for r in rows:
             f.write(json.dumps(r, separators=(",", ":")) + "\n")
+
+
+# ---------------- generic "recorded cases -> TLC trace spec" validation
+
+def validate_cases(ctx, module, cfg, recfile, sig, label, rerun=None, input_keys=None, observed_keys=None,
+                   nontrivial=None, timeout=1500, env=None, count_traces=True, workers=None):
+    """Validate recorded cases (ndjson, one case per line) with a TLC trace spec whose states carry `ci`
+    (1-based case index). Each violated case is re-run through the real code (rerun(case)->recorded case)
+    and re-validated alone before it is reported (DESIGN 2.4c)."""
+    cases = read_ndjson(recfile)
+    if not cases:
+        raise Infra("no cases recorded in %s" % recfile)
+    ctx.cov["evaluations"] += len(cases)
+    if count_traces:
+        ctx.cov["traces_validated_against_impl"] += len(cases)
+    if nontrivial:
+        for c in cases:
+            if nontrivial(c):
+                ctx.nontrivial(sig(c))
+    picks = [cases[len(cases) // 3], cases[(2 * len(cases)) // 3]]
+    for c in picks[: 1 if ctx.cov["samples"] else 2]:
+        ctx.sample(c)
+    e = {"VERIF_CASES": recfile}
+    if env:
+        e.update(env)
+    r = ctx.tlc(module, cfg, env=e, timeout=timeout, name=label, workers=workers)
+    seen = set()
+    for v in r.violations:
+        ci = r.var(v, "ci")
+        if ci is None or ci < 1:
+            raise Infra("cannot locate failing case in TLC output (%s)" % r.logfile)
+        if ci in seen:
+            continue
+        seen.add(ci)
+        c = cases[ci - 1]
+        inp = {k: c[k] for k in (input_keys or c.keys()) if k in c}
+        rec = c
+        if rerun and len(seen) <= 25:
+            one = ctx.path("one-%s-%d.ndjson" % (label, ci))
+            rec = rerun(inp, one)
+            write_ndjson(one, [rec])
+            e2 = dict(e)
+            e2["VERIF_CASES"] = one
+            r2 = ctx.tlc(module, cfg, env=e2, timeout=600, workers=1, name="repro")
+            if not r2.violations:
+                raise Infra("violation of case %d (%s) did not reproduce" % (ci, label))
+        obs = {k: rec.get(k) for k in (observed_keys or [])} if observed_keys else None
+        ctx.fail(sig(c), case=inp, observed=obs,
+                 detail="TLC %s %s violated in %s (%s)" % (v["kind"], v["name"], module, label))
+    return r, cases
